@@ -207,7 +207,11 @@ struct Exporter {
       o["k"] = "Ref"; o["name"] = DR->getDecl()->getNameAsString(); o["id"] = declId(DR->getDecl());
       const ValueDecl *VD = DR->getDecl();
       if (isa<ParmVarDecl>(VD)) o["rk"] = "param";
-      else if (auto *V = dyn_cast<VarDecl>(VD)) o["rk"] = V->isLocalVarDecl() ? "local" : "global";
+      else if (auto *V = dyn_cast<VarDecl>(VD)) {
+        o["rk"] = V->isLocalVarDecl() ? "local" : "global";
+        if (V->isStaticLocal()) o["static"] = true;
+        if (!V->isLocalVarDecl() || V->isStaticLocal()) o["mut"] = !(V->getType().isConstQualified() || V->isConstexpr() || V->getType()->isReferenceType());
+      }
       else if (isa<EnumConstantDecl>(VD)) { o["rk"] = "enumconst"; o["q"] = qname(VD); }
       else if (isa<FunctionDecl>(VD)) { o["rk"] = "func"; o["q"] = qname(VD); }
       else o["rk"] = "other";
@@ -261,6 +265,8 @@ struct Exporter {
     o["name"] = V->getNameAsString(); o["id"] = declId(V); o["t"] = typeInfo(V->getType());
     o["loc"] = loc(V->getLocation());
     if (V->hasInit()) o["init"] = expr(V->getInit());
+    if (V->isStaticLocal()) o["static"] = true;
+    if (V->getTLSKind() != VarDecl::TLS_None) o["tls"] = true;
     return json::Value(std::move(o));
   }
 
